@@ -351,18 +351,6 @@ func (p *path) addRule(
 		invalid(tok)
 	}
 
-	y, ok := cursor.methods[verb]
-	if !ok {
-		y = cursor.methodAll // kind '*' covers every verb
-	}
-	if y != nil {
-		if y.desc.FullName() != desc.FullName() {
-			return fmt.Errorf("duplicate rule %v", rule)
-		}
-		// Method already registered, additional bindings may still be new.
-		return p.addAdditionalBindings(rule, desc, name)
-	}
-
 	m := &method{
 		desc: desc,
 		vars: varfds,
@@ -394,6 +382,19 @@ func (p *path) addRule(
 		if !isSingularMessage(m.resp[len(m.resp)-1]) {
 			return fmt.Errorf("response body field %v must be a message", rule.ResponseBody)
 		}
+	}
+
+	// Selectors are validated above even when the binding already exists.
+	y, ok := cursor.methods[verb]
+	if !ok {
+		y = cursor.methodAll // kind '*' covers every verb
+	}
+	if y != nil {
+		if y.desc.FullName() != desc.FullName() {
+			return fmt.Errorf("duplicate rule %v", rule)
+		}
+		// Method already registered, additional bindings may still be new.
+		return p.addAdditionalBindings(rule, desc, name)
 	}
 
 	// register method
